@@ -10,14 +10,17 @@ Requests (fields TAB-separated; names/text hex of UTF-8, bytes hex, `-` empty, `
   utf8 <vk> <val>
   slug <vk> <val> <incoming|N> <errors> <stdin|N> <default>      (front end: asciiFront)
   pipe <ascii text>                                              (lines 290-291 after the front end)
-vk: s (str) | b (bytes) | o (any other type, val ignored but must be `-`).
+vk: s (str) | S (instance of a proper subclass of str, val = its character content) | b (bytes) |
+    B (instance of a proper subclass of bytes) | o (any other type, val must be `-`).
 Reply: str:<hex> | bytes:<hex> | err:<ExceptionClass> | bad-request
 -/
 
 def parseVal (vk val : String) : Option Val :=
   match vk with
-  | "s" => (unhexChars val).map .str
-  | "b" => (unhex val).map .bytes
+  | "s" => (unhexChars val).map (.str .exact)
+  | "S" => (unhexChars val).map (.str .sub)
+  | "b" => (unhex val).map (.bytes .exact)
+  | "B" => (unhex val).map (.bytes .sub)
   | "o" => if val = "-" then some .other else none
   | _ => none
 
